@@ -3,6 +3,7 @@
 //!
 //! TLS <client_tls> <verify> <plain|tls> <match|wrongname|untrusted> <host|ip> <marker>   (C13, one table cell)
 //! NET <tls 0|1> <ngood> <nreq> <seed> <k> <fault>*                                        (C10, one scenario)
+//! RECONN <overlap|failed>      (C11/C12: one client object, connect() called twice, over real TCP)
 
 use crate::codec::State;
 use crate::proto::*;
@@ -366,6 +367,97 @@ pub fn scenario(st: &State, t: &mut Toks) -> PResult<String> {
             out.push_str(&r);
         }
         for h in fh { h.abort(); }
+        Ok::<String, String>(out)
+    });
+    rt.shutdown_timeout(Duration::from_millis(200));
+    out
+}
+
+// ------------------------------------------------------------------ C11 / C12: connect() called again on one client object
+async fn read_frame(s: &mut TcpStream) -> bool {
+    let mut h = [0u8; 4];
+    if s.read_exact(&mut h).await.is_err() {
+        return false;
+    }
+    let n = u32::from_be_bytes([0, h[1], h[2], h[3]]) as usize;
+    let mut b = vec![0u8; n.saturating_sub(4)];
+    s.read_exact(&mut b).await.is_ok()
+}
+
+fn plain_request(dict: &Arc<Dictionary>, hop: u32) -> DiameterMessage {
+    let mut m = DiameterMessage::new(CommandCode::CreditControl, ApplicationId::CreditControl, 0x80, hop, hop, Arc::clone(dict));
+    m.add_avp(264, None, M, Identity::new("client.example.com").into());
+    m
+}
+
+fn plain_answer(dict: &Arc<Dictionary>, hop: u32) -> Vec<u8> {
+    let mut m = DiameterMessage::new(CommandCode::CreditControl, ApplicationId::CreditControl, 0, hop, hop, Arc::clone(dict));
+    m.add_avp(268, None, M, Unsigned32::new(2001).into());
+    let mut b = Vec::new();
+    m.encode_to(&mut b).expect("encode answer");
+    b
+}
+
+async fn outcome(fut: diameter::transport::client::ResponseFuture, want_hop: u32) -> &'static str {
+    match tokio::time::timeout(Duration::from_secs(3), fut).await {
+        Ok(Ok(m)) => if m.get_hop_by_hop_id() == want_hop { "got" } else { "wrong" },
+        Ok(Err(_)) => "err",
+        Err(_) => "pending",
+    }
+}
+
+/// overlap: request 1 in flight on connection A, connect() again (B), request 2 on B, A's peer closes, B's peer answers 2.
+/// failed:  request 1 answered on A, connect() again to a port nobody listens on any more (fails), A's peer closes, then one more send.
+pub fn reconn(st: &State, t: &mut Toks) -> PResult<String> {
+    let dict = st.dicts.get("b").ok_or_else(|| "dict b missing".to_string())?.clone();
+    let variant = t.next()?.to_string();
+    let rt = rt();
+    let out = rt.block_on(async move {
+        let l = TcpListener::bind("127.0.0.1:0").await.map_err(|e| e.to_string())?;
+        let addr = l.local_addr().map_err(|e| e.to_string())?;
+        let mut client = DiameterClient::new(&addr.to_string(), DiameterClientConfig { use_tls: false, verify_cert: false });
+        let mut h1 = client.connect().await.map_err(|e| format!("first connect failed: {:?}", e))?;
+        let (mut sa, _) = l.accept().await.map_err(|e| e.to_string())?;
+        let d1 = Arc::clone(&dict);
+        tokio::spawn(async move { DiameterClient::handle(&mut h1, d1).await; });
+        let fut1 = client.send_message(plain_request(&dict, 1)).await.map_err(|e| format!("send 1 failed: {:?}", e))?;
+        if !read_frame(&mut sa).await {
+            return Err("peer A did not receive request 1".into());
+        }
+        let mut out = String::from("RECONN");
+        if variant == "overlap" {
+            let mut h2 = client.connect().await.map_err(|e| format!("second connect failed: {:?}", e))?;
+            let (mut sb, _) = l.accept().await.map_err(|e| e.to_string())?;
+            let d2 = Arc::clone(&dict);
+            tokio::spawn(async move { DiameterClient::handle(&mut h2, d2).await; });
+            let fut2 = client.send_message(plain_request(&dict, 2)).await.map_err(|e| format!("send 2 failed: {:?}", e))?;
+            if !read_frame(&mut sb).await {
+                return Err("peer B did not receive request 2".into());
+            }
+            drop(sa); // the peer of the OLD connection goes away
+            tokio::time::sleep(Duration::from_millis(150)).await;
+            let _ = sb.write_all(&plain_answer(&dict, 2)).await;
+            let o2 = outcome(fut2, 2).await;
+            let o1 = outcome(fut1, 1).await;
+            let _ = write!(out, " reconnect=ok f1={} f2={}", o1, o2);
+        } else {
+            let _ = sa.write_all(&plain_answer(&dict, 1)).await;
+            let o1 = outcome(fut1, 1).await;
+            drop(l); // nobody listens any more: the next connect() is refused
+            let rc = match tokio::time::timeout(Duration::from_secs(3), client.connect()).await {
+                Ok(Ok(_)) => "ok",
+                Ok(Err(_)) => "failed",
+                Err(_) => "timeout",
+            };
+            drop(sa); // the peer of the only live connection goes away: its reader stops
+            tokio::time::sleep(Duration::from_millis(200)).await;
+            let o2 = match tokio::time::timeout(Duration::from_secs(3), client.send_message(plain_request(&dict, 2))).await {
+                Ok(Ok(fut)) => match outcome(fut, 2).await { "err" => "futerr", "pending" => "pending", x => x },
+                Ok(Err(_)) => "senderr",
+                Err(_) => "sendpending",
+            };
+            let _ = write!(out, " reconnect={} f1={} f2={}", rc, o1, o2);
+        }
         Ok::<String, String>(out)
     });
     rt.shutdown_timeout(Duration::from_millis(200));
